@@ -631,7 +631,7 @@ func RunPlayCfg(c *h.Ctx, cfg h.TableCfg, po PlayOpts, mon *PlayMon) *Play {
 		}
 		hd := ss.NextHand(sc)
 		p.CurHand = hd
-		if p.StopNow {
+		if p.StopNow && hd.Settled == nil {
 			return p
 		}
 		if hd.Timeout || hd.Settled == nil {
@@ -652,7 +652,7 @@ func RunPlayCfg(c *h.Ctx, cfg h.TableCfg, po PlayOpts, mon *PlayMon) *Play {
 		if mon.AfterHand != nil {
 			mon.AfterHand(p, hd)
 		}
-		if c.Failed() || p.Tainted != "" {
+		if c.Failed() || p.Tainted != "" || p.StopNow {
 			return p
 		}
 		if hd.AutoEnd || hd.Closed {
